@@ -617,6 +617,10 @@ def judge_a(case, cl, ml):
     if d.get("mmbad"):
         return False, {"why": "munmap does not release exactly a live mapping (mapped/unmapped/known): " + d["mmbad"],
                        "impl": cl[:900], "model": mcore, "impl_violates": True, "sig": "munmap-mismatch"}
+    if d.get("fdsend") is None or d["fdsend"].split(":")[0] != d["fdsend"].split(":")[1]:
+        return False, {"why": "file descriptors left open by the case (start:end of the child) = " + str(d.get("fdsend"))
+                              + " new: " + d.get("fdnew", "-"),
+                       "impl": cl[:900], "model": mcore, "impl_violates": True, "sig": "fd-leak"}
     if mcore.startswith("OOB") or mcore.startswith("IDX") or " OOB" in mcore or " IDX" in mcore:
         return False, {"why": "model reached oob/idx (theorem says impossible)", "impl": ccore, "model": mcore,
                        "impl_violates": False}
@@ -1027,6 +1031,85 @@ def gen_stage_b_flags(c, tier, model_dir, tag, stats, faults):
     return out
 
 
+def fd_leak(d):
+    """descriptor ledger of one child (harness: fd_count/fd_report): None, or the text of the difference.
+    `fds=a:b` = open descriptors before / after the single damaged load attempt (after decoder_free),
+    `fdsend=a:b` = at the start / at the end of the forked child (after the intact reload as well)."""
+    out = []
+    for key, what in (("fds", "around the damaged load attempt"), ("fdsend", "start/end of the child")):
+        v = d.get(key)
+        if v is None:
+            return f"the harness printed no `{key}=` (descriptor ledger missing)"
+        a, b = v.split(":")
+        if a != b:
+            out.append(f"{what}: {a} descriptors open before, {b} after")
+    if out:
+        return "; ".join(out) + (f"; new descriptors: {d['fdnew']}" if d.get("fdnew") else "")
+    return None
+
+
+MAPPED_TEXT_FILES = ("noisedict.txt", "dict.txt")       # dict_init maps both through s3file_map_file
+
+
+def gen_stage_b_fds(c, tier, model_dir, tag, stats, faults):
+    """stage-B faults added for the descriptor ledger (own random stream): the ZERO-LENGTH file (and a file that is
+    missing, one byte long, and one random cut) through the memory-mapping route for EVERY file decoder_init maps -
+    the five binary files, noisedict.txt and the main dictionary dict.txt (dict faults: `nouse`, accept/reject not
+    judged, the dictionary parser is C16's subject) - under the default and one non-default configuration; the
+    in-memory route gets length 0 of the binary files too.  Faults already drawn by the base enumeration are not
+    repeated; the distribution (incl. how many zero-length map attempts the whole run contains) goes to the evidence."""
+    rng = vlib.Rng(c.seed * 7919 + 37)
+    have = {(m, fn, ed, mt.get("cfg")) for m, fn, ed, mt in faults}
+    out, dist = [], {"added": 0, "zero_length_mmap_by_file": {}, "zero_length_mem_by_file": {}}
+    k = 0
+    for fn in ("mdef", "means", "variances", "sendump", "transition_matrices", "mixture_weights") + MAPPED_TEXT_FILES:
+        pth = model_dir / fn
+        if not pth.exists():
+            continue
+        n = pth.stat().st_size
+        text = fn in MAPPED_TEXT_FILES
+        for mode in ("mmap",) if text else ("mmap", "mem"):
+            eds = ["t0", "t1", "x", f"t{rng.range(2, max(2, n - 1))}"] if mode == "mmap" else ["t0"]
+            for ed in eds:
+                for cfg in (None, CONFIGS[k % len(CONFIGS)]) if ed == "t0" else (None,):
+                    if (mode, fn, ed, cfg) in have:
+                        continue
+                    if fn == "dict.txt":
+                        meta = {"kind": "other", "nouse": True}
+                    else:
+                        meta = {"kind": "missing" if ed == "x" else "trunc"}
+                    if cfg:
+                        meta["cfg"] = cfg
+                    out.append((mode, fn, ed, meta))
+                    dist["added"] += 1
+                k += 1
+    for mode, fn, ed, mt in list(faults) + out:
+        if ed == "t0":
+            key = "zero_length_mmap_by_file" if mode == "mmap" else "zero_length_mem_by_file"
+            dist[key][fn] = dist[key].get(fn, 0) + 1
+    stats.setdefault("fd_family_stageB", {})[tag] = dist
+    return out
+
+
+def gen_stage_a_fds(c, A, tier, stats):
+    """stage A: the assembly on FILES (acmod_load_am, ct = 1: every file goes through s3file_map_file) and on memory
+    (ct = 0) with each of its five files cut to length 0, for a sendump set and a mixture-weights set"""
+    rng = vlib.Rng(c.seed * 7919 + 41)
+    st = {"am_kinds": {}}
+    n = 0
+    for use_sd in (True, False):
+        words = [w for kind, w in syn_am(rng, st, "ok", use_sd) if w[1] == "1"][0]
+        for pos in (5, 7, 9, 11, 14):       # edit words of mdef, tmat, means, variances, sendump|mixw (after the id)
+            for ct in ("1", "0"):
+                w = list(words)
+                w[1] = ct
+                w[pos - 1] = "t0"
+                cid = f"a{A.n}"; A.n += 1
+                A.cases.append((cid, " ".join([cid] + w), {"target": "am", "file": "syn-am", "kind": "trunc0"}))
+                n += 1
+    stats["fd_family_stageA"] = {"am_zero_length_cases": n}
+
+
 def judge_maps(res, model_lens):
     """mapping ledger over all stage-B children: (violations [(index, text)], pairs compared, live mappings left)"""
     bad, n, live = [], 0, 0
@@ -1121,7 +1204,7 @@ def expected_b(fault, plan_accepts, model_dir=None):
     mode, fn, ed, meta = fault
     if meta["kind"] == "intact":
         return "acc"
-    if meta["kind"] == "other":
+    if meta["kind"] == "other" or fn == "dict.txt":      # dictionary contents: cleanliness + ledgers only
         return None
     if fn == "feat_params.json" and meta["kind"] in ("trunc", "missing") and model_dir is not None:
         # without its feature parameters the model cannot match the default front end; a cut that still
@@ -1230,8 +1313,11 @@ def judge_b(fault, d, exp):
         return "harness-config", f"configuration {d.get('cfg')} was not accepted by config_set_str"
     if d.get("mmlive", "0") != "0":
         return "mapping-leak", f"{d.get('mmlive')} file mappings still live after decoder_free"
+    fl = fd_leak(d)
+    if fl:
+        return "fd-leak", fl
     got = d.get("fault")
-    if got == "acc" and d.get("use") != "ok":
+    if got == "acc" and d.get("use") != "ok" and fault[1] != "dict.txt":
         return "accepted-unusable", f"use={d.get('use')}"
     if exp is not None and got != exp:
         return ("accepted" if got == "acc" else "rejected-unexpectedly"), f"expected {exp}, decoder_init gave {got}"
@@ -1332,6 +1418,7 @@ def check(c):
                 A.cases.append((cid, " ".join([cid] + w[1:]).replace("$REPO", str(vlib.REPO)),
                                 {"target": w[1], "file": "corpus", "kind": "corpus"}))
     gen_stage_a_flags(c, A, c.tier, stats, [(tag, vlib.REPO / "model" / tag) for tag in models])
+    gen_stage_a_fds(c, A, c.tier, stats)
     cres, mres = A.run(nw)
     a_ok, a_bad, sites, a_kinds, model_sites, ledger_stages = 0, 0, {}, {}, {}, {}
     plan_accepts = {tag: {} for tag in models}
@@ -1408,14 +1495,16 @@ def check(c):
     b_total, b_kinds, b_sites, b_out = 0, {}, {}, {}
     b_cfgs = {}
     mm_stats = {"pairs": 0, "distinct_sizes": 0, "page_multiple_sizes": 0, "bad": [], "children_with_maps": 0}
+    fd_stats = {"children": 0, "leaking": 0, "zero_length_mmap_loads": 0, "zero_length_mmap_files": set()}
     for tag in models:
         plan_accepts[tag]["__am__"] = model_assembly(c, tag, vlib.REPO / "model" / tag,
                                                      {k: v for k, v in plan_accepts[tag].items() if isinstance(k, tuple) and len(k) == 2 and k[0] != "mdef-core"})
         stats.setdefault("assembly_queries", {})[tag] = len(plan_accepts[tag]["__am__"])
         faults = gen_stage_b(c, c.tier, envs[tag][0], tag, stats)
         faults += gen_stage_b_flags(c, c.tier, envs[tag][0], tag, stats, faults)
-        corpf = vlib.ROOT / "corpus" / "C17" / f"decflags-{tag}.txt"
-        if corpf.exists():
+        faults += gen_stage_b_fds(c, c.tier, envs[tag][0], tag, stats, faults)
+        for corpf in (vlib.ROOT / "corpus" / "C17" / f"fds-{tag}.txt", vlib.ROOT / "corpus" / "C17" / f"decflags-{tag}.txt"):
+          if corpf.exists():
             for l in corpf.read_text().split("\n"):
                 w = l.split()
                 if len(w) == 4 and not l.startswith("#"):
@@ -1444,6 +1533,14 @@ def check(c):
                           {"stage": "B (mapping ledger)", "model": tag, "fault": {"path": mode, "file": fn, "edits": ed, "cfg": meta.get("cfg")},
                            "observed": (res.get(i) or {}).get("_line"), "why": txt}, found=False)
         for i, fault in enumerate(faults):
+            d = res.get(i)
+            if d and d.get("fds"):
+                fd_stats["children"] += 1
+                fd_stats["leaking"] += 1 if fd_leak(d) else 0
+                if fault[2] == "t0" and fault[0] == "mmap":
+                    fd_stats["zero_length_mmap_loads"] += 1
+                    fd_stats["zero_length_mmap_files"].add(fault[1])
+        for i, fault in enumerate(faults):
             mode, fn, ed, meta = fault
             d = res.get(i)
             exp = expected_b(fault, plan_accepts[tag], envs[tag][0])
@@ -1468,6 +1565,15 @@ def check(c):
              f"({mm_stats['pairs']} releases in {mm_stats['children_with_maps']} children, {mm_stats['distinct_sizes']} distinct file sizes, "
              f"{mm_stats['page_multiple_sizes']} of them whole pages)",
              not mm_stats["bad"] and mm_stats["pairs"] > 0 and mm_stats["page_multiple_sizes"] > 0, mm_stats["bad"])
+    a_fd = sum(1 for cid, _, _ in A.cases if " fdsend=" in (cres.get(cid) or ""))
+    need0 = {"mdef", "means", "variances", "sendump", "transition_matrices", "noisedict.txt", "dict.txt"}
+    c.oblige(f"descriptor ledger: every load attempt leaves the process with exactly the open file descriptors it had before "
+             f"({fd_stats['children']} stage-B children: fds= around the damaged load, fdsend= start/end of the child; {a_fd} stage-A children; "
+             f"{fd_stats['zero_length_mmap_loads']} loads of a zero-length file through the mapping route over "
+             f"{len(fd_stats['zero_length_mmap_files'])} files)",
+             fd_stats["leaking"] == 0 and fd_stats["children"] > 0 and a_fd == len(A.cases) - sum(1 for cid, _, _ in A.cases if " | " not in (cres.get(cid) or ""))
+             and need0 <= fd_stats["zero_length_mmap_files"],
+             {"leaking_children": fd_stats["leaking"], "files_never_mapped_at_length_0": sorted(need0 - fd_stats["zero_length_mmap_files"])})
     fa = stats.get("flag_family_stageA", {})
     c.oblige(f"configuration family: the reader with a flag argument was run under both values ({fa.get('cionly=1', 0)} faults with cionly=1, "
              f"{fa.get('cionly=0', 0)} with cionly=0, {fa.get('cut_in_tree', 0)} cuts inside a cd_tree, {fa.get('n_cd_tree_field', 0)} corrupted tree counts); "
@@ -1488,6 +1594,11 @@ def check(c):
                   "stageB_expectations_from_assembly_model": stats.get("assembly_queries"), "models": models, "workers": nw,
                   "flag_family_stageA": stats.get("flag_family_stageA"), "flag_family_stageB": stats.get("flag_family_stageB"),
                   "stageB_by_config": b_cfgs, "mapping_ledger": {k: v for k, v in mm_stats.items() if k != "bad"},
+                  "descriptor_ledger": {"stageB_children": fd_stats["children"], "stageB_leaking": fd_stats["leaking"],
+                                        "zero_length_mmap_loads": fd_stats["zero_length_mmap_loads"],
+                                        "zero_length_mmap_files": sorted(fd_stats["zero_length_mmap_files"]),
+                                        "stageA_children_with_ledger": a_fd},
+                  "fd_family_stageA": stats.get("fd_family_stageA"), "fd_family_stageB": stats.get("fd_family_stageB"),
                   "violation_classes": sorted(groups), "wall_enumeration_s": round(time.time() - t_start, 1)})
     for cid, line, meta in A.cases[:3]:
         c.samples.append({"stageA": line[:200], "impl": (cres.get(cid) or "")[:200], "model": (mres.get(cid) or "")[:200]})
